@@ -144,7 +144,61 @@ def r2_unique(ctx, F):
                   "create two entries for one key" % (s, c.name.split("::")[-1]), fn=f, line=c.line)
 
 
+def r3_index_replacement(ctx, F):
+    """the hash index of a map that may hold entries is only ever replaced by `None` or by a table that was filled with
+    one slot per entry (create_index): a `&mut self` method that stores a fresh, empty table loses every existing entry
+    for lookups (iteration still sees them, `get`/`contains`/`insert` do not)"""
+    n = 0
+    for f in F.fns.values():
+        if f.crate != "starlark_map" or not f.locals.get("_1", "").startswith("&mut"):
+            continue
+        for st in f.stmts:
+            if "small_map::SmallMap::index}" not in st.lhs or st.bb in f.cleanup or not st.lhs.startswith("_1"):
+                continue
+            n += 1
+            os_ = origins(f, st.ops[0], pass_calls=re.compile(r"(Box::<T>::new|Box::<T, A>::new)$"))
+            # follow `Some(x)` aggregates to their payload
+            work, srcs = list(os_), []
+            seen = set()
+            while work:
+                o = work.pop()
+                if o[0] == "agg":
+                    if o[1].kind.endswith("Option::None"):
+                        srcs.append(("none", None))
+                        continue
+                    for op in " | ".join(o[1].ops).split(" | "):
+                        if op not in seen:
+                            seen.add(op)
+                            work.extend(origins(f, op, pass_calls=re.compile(r"(Box::<T>::new|Box::<T, A>::new)$")))
+                else:
+                    srcs.append(o)
+            fills = [c for c in f.calls if c.bb not in f.cleanup and re.search(r"HashTable::<T, A>::insert_unique$|"
+                                                                                r"HashTable::<T>::insert_unique$", c.name)]
+            iters = [c for c in f.calls if c.bb not in f.cleanup and re.search(r"VecMap::<K, V>::(iter_hashed|iter|hashes)$",
+                                                                                c.name)]
+            ok = True
+            why = ""
+            for o in srcs:
+                if o[0] == "none":
+                    continue
+                if o[0] == "call" and re.search(r"HashTable::<.*>::(with_capacity|new)$", o[1].name):
+                    if not (fills and iters and all(st.bb in f.after(c.bb) for c in fills)):
+                        ok, why = False, "a freshly created table that was not filled from the entries"
+                elif o[0] == "call":
+                    g = F.fns.get(o[1].callee_uid())
+                    if g is None or not any(re.search(r"insert_unique$", c.name) for c in g.calls):
+                        ok, why = False, "the result of `%s`, which does not fill the table from the entries" % short_fn(o[1].name)
+                elif o[0] in ("param", "unknown"):
+                    ok, why = False, "a value of unknown provenance"
+            ctx.check(ok, "C11.R3", "index-replaced-by-filled-table:" + short_fn(f.qpath),
+                      "the index is replaced by None or by a table filled from the entries",
+                      "`%s` (a `&mut self` method: the map may hold entries) stores %s into the hash index: existing "
+                      "entries are no longer found by key" % (short_fn(f.qpath), why), fn=f, line=st.line)
+    ctx.floor("C11.R3", "writes of SmallMap.index in &mut self methods", n, 2)
+
+
 def run(ctx):
     F = ctx.facts("core")
+    r3_index_replacement(ctx, F)
     r1_paired(ctx, F)
     r2_unique(ctx, F)
